@@ -59,7 +59,7 @@ Lemma mdone_false bnd p : bnd <> [] -> mdone bnd p = false -> (p <= length bnd)%
 Proof.
   unfold mdone. intros Hb H Hle. destruct (Nat.eqb_spec p (length bnd)) as [E|E]; [|lia].
   rewrite andb_true_r in H. apply negb_false_iff, Nat.eqb_eq in H. subst p.
-  destruct bnd; [contradiction|cbn in H; lia].
+  destruct bnd; [contradiction|cbn in E; lia].
 Qed.
 
 (* soundness, any boundary: when the matcher stops, the input read so far ends with the boundary and
